@@ -60,8 +60,8 @@ func runC12(c *Ctx) {
 	cv["samples"] = samples
 	cv["lattice"] = map[string]interface{}{
 		"tier": lat.Name, "supplies": len(lat.Supplies), "reserves": len(lat.Reserves), "crr_values": len(lat.Crrs),
-		"supply_range": []string{lat.Supplies[0].String(), lat.Supplies[len(lat.Supplies)-1].String()},
-		"reserve_range": []string{lat.Reserves[0].String(), lat.Reserves[len(lat.Reserves)-1].String()},
+		"supply_range":           []string{lat.Supplies[0].String(), lat.Supplies[len(lat.Supplies)-1].String()},
+		"reserve_range":          []string{lat.Reserves[0].String(), lat.Reserves[len(lat.Reserves)-1].String()},
 		"amount_ratio_exponents": lat.RatioExps, "amount_fractions": lat.Fractions, "amount_near_all_exponents": lat.NearAll, "amount_multiples_exponents": lat.Multiples,
 		"lines_function_supply_reserve_amount": st.Lines, "units": st.Units, "units_done": st.UnitsDone,
 	}
@@ -69,7 +69,7 @@ func runC12(c *Ctx) {
 	var mono, rts, s2 int64
 	for f := bancor.Func(0); f < bancor.NFuncs; f++ {
 		p := st.PerFunc[f]
-		m := map[string]interface{}{"evaluations": p.Evaluations, "nontrivial": p.Nontrivial, "monotone_pairs": p.MonotonePairs, "accepted_by_conditioning_stage2": p.Stage2}
+		m := map[string]interface{}{"evaluations": p.Evaluations, "nontrivial": p.Nontrivial, "monotone_pairs": p.MonotonePairs, "accepted_by_conditioning_stage2": p.Stage2, "stage2_with_all_operands_below_2^100": p.Stage2Narrow}
 		if p.WorstErrLog2 > -1e8 {
 			m["worst_stage1_error_log2_relative_to_operand_magnitude"] = p.WorstErrLog2
 			m["worst_stage1_at"] = p.WorstAt
